@@ -47,6 +47,10 @@ def run_against(tree, tier="quick", nruns=None, stop=True, seed=0, timeout=3000)
 
 def cmd_mutants(argv):
     only = [a for a in argv if not a.startswith("-")]
+    seeds = [0]
+    for a in argv:
+        if a.startswith("--seeds="):
+            seeds = [int(x) for x in a.split("=", 1)[1].split(",")]
     res = {}
     bad = 0
     for kind, expect in (("mutants", 1), ("seeded", 1), ("benign", 0)):
@@ -60,7 +64,14 @@ def cmd_mutants(argv):
                 continue
             tree = scratch_tree(patch)
             try:
-                code, out, err, dt = run_against(tree, stop=(expect == 1))
+                for sd in seeds[:-1]:      # extra seeds: one line each, the last seed is "the" result
+                    c2, o2, e2, d2 = run_against(tree, stop=(expect == 1), seed=sd)
+                    print("%-40s expect=%d exit=%d %6.1fs %s seed=%d" % (
+                        name + "@seed%d" % sd, expect, c2, d2,
+                        "OK" if c2 == expect else "MISMATCH", sd))
+                    bad += 0 if c2 == expect else 1
+                    sys.stdout.flush()
+                code, out, err, dt = run_against(tree, stop=(expect == 1), seed=seeds[-1])
             finally:
                 # replay files written for a mutant are meaningless afterwards
                 shutil.rmtree(tree, ignore_errors=True)
